@@ -23,6 +23,7 @@ type feedOpts struct {
 	mutQ, mutT           int
 	nextByte             bool
 	onlyValidBases       bool
+	noDepthSites         bool
 }
 
 var defaultNestDepths = []int{1, 2, 3, 5, 17, 64, 9998, 9999, 10000, 10001, 10002, 20000}
@@ -142,7 +143,7 @@ func (e *env) feed(o feedOpts, f inputFn) {
 
 	// 4b. every fcall site at the depth limit: all opener contexts (first/later member of an
 	// array/object, either opener kind) x depths 9999..10001 x bottoms, fully closed
-	if o.nestQ > 0 && e.enumStage("depthsites", "7 array/object mixtures x sibling/no sibling x depths {9999,10000,10001} x 6 bottoms x {closed, unclosed}", true) {
+	if o.nestQ > 0 && !o.noDepthSites && e.enumStage("depthsites", "7 array/object mixtures x sibling/no sibling x depths {9999,10000,10001} x 6 bottoms x {closed, unclosed}", true) {
 		idx := 0
 	sites:
 		for _, pat := range gen.NestPatterns {
